@@ -143,6 +143,11 @@ impl ScOut for Value {
         Sc::Recon(V::from_value(&self))
     }
 }
+impl ScOut for i32 {
+    fn sc(self) -> Sc {
+        Sc::Recon(V::I32(self))
+    }
+}
 
 pub trait BOut {
     fn bd(self) -> Bd;
@@ -158,6 +163,11 @@ impl BOut for Bytes {
     }
 }
 impl BOut for Value {
+    fn bd(self) -> Bd {
+        Bd::S(self.sc())
+    }
+}
+impl BOut for i32 {
     fn bd(self) -> Bd {
         Bd::S(self.sc())
     }
@@ -572,6 +582,8 @@ pub struct Fam {
     pub group: &'static str,
     /// The decoder yields byte bodies (held to the re-encode rule).
     pub raw_dec: bool,
+    /// Typed decoder instantiated with `i32` (keys and values): most bodies are ill-typed for it.
+    pub strict: bool,
     pub enc_raw: bool,
     pub enc_typed: bool,
     /// Valid tags of nested map bodies (or, for routed messages, of the 3 bit tag).
@@ -585,7 +597,9 @@ pub struct Fam {
 
 impl Fam {
     pub fn sc_mode(&self) -> ScMode {
-        if !self.enc_raw {
+        if self.strict {
+            ScMode::Strict
+        } else if !self.enc_raw {
             ScMode::Compact
         } else if self.raw_dec {
             ScMode::Any
@@ -709,6 +723,7 @@ pub fn families() -> Vec<Fam> {
             name: "len-bytes",
             group: "utilities-encoding",
             raw_dec: true,
+            strict: false,
             enc_raw: true,
             enc_typed: true,
             map_tags: OP_TAGS,
@@ -727,6 +742,7 @@ pub fn families() -> Vec<Fam> {
             name: "len-recon",
             group: "recon-encoding",
             raw_dec: false,
+            strict: false,
             enc_raw: true,
             enc_typed: true,
             map_tags: OP_TAGS,
@@ -746,6 +762,7 @@ pub fn families() -> Vec<Fam> {
             name: "lane-req-value-raw",
             group: "lane",
             raw_dec: true,
+            strict: false,
             enc_raw: true,
             enc_typed: true,
             map_tags: MSG_TAGS,
@@ -764,6 +781,7 @@ pub fn families() -> Vec<Fam> {
             name: "lane-req-value",
             group: "lane",
             raw_dec: false,
+            strict: false,
             enc_raw: true,
             enc_typed: true,
             map_tags: MSG_TAGS,
@@ -782,6 +800,7 @@ pub fn families() -> Vec<Fam> {
             name: "lane-req-map-raw",
             group: "lane",
             raw_dec: true,
+            strict: false,
             enc_raw: true,
             enc_typed: true,
             map_tags: MSG_TAGS,
@@ -800,6 +819,7 @@ pub fn families() -> Vec<Fam> {
             name: "lane-req-map",
             group: "lane",
             raw_dec: false,
+            strict: false,
             enc_raw: true,
             enc_typed: true,
             map_tags: MSG_TAGS,
@@ -819,6 +839,7 @@ pub fn families() -> Vec<Fam> {
             name: "lane-resp-value-raw",
             group: "lane",
             raw_dec: true,
+            strict: false,
             enc_raw: true,
             enc_typed: true,
             map_tags: OP_TAGS,
@@ -837,6 +858,7 @@ pub fn families() -> Vec<Fam> {
             name: "lane-resp-value",
             group: "lane",
             raw_dec: false,
+            strict: false,
             enc_raw: true,
             enc_typed: true,
             map_tags: OP_TAGS,
@@ -855,6 +877,7 @@ pub fn families() -> Vec<Fam> {
             name: "lane-resp-map-raw",
             group: "lane",
             raw_dec: true,
+            strict: false,
             enc_raw: true,
             enc_typed: true,
             map_tags: OP_TAGS,
@@ -873,6 +896,7 @@ pub fn families() -> Vec<Fam> {
             name: "lane-resp-map",
             group: "lane",
             raw_dec: false,
+            strict: false,
             enc_raw: true,
             enc_typed: true,
             map_tags: OP_TAGS,
@@ -892,6 +916,7 @@ pub fn families() -> Vec<Fam> {
             name: "map-msg-raw",
             group: "map",
             raw_dec: true,
+            strict: false,
             enc_raw: true,
             enc_typed: true,
             map_tags: MSG_TAGS,
@@ -910,6 +935,7 @@ pub fn families() -> Vec<Fam> {
             name: "map-msg",
             group: "map",
             raw_dec: false,
+            strict: false,
             enc_raw: true,
             enc_typed: true,
             map_tags: MSG_TAGS,
@@ -928,6 +954,7 @@ pub fn families() -> Vec<Fam> {
             name: "map-op-raw",
             group: "map",
             raw_dec: true,
+            strict: false,
             enc_raw: true,
             enc_typed: true,
             map_tags: OP_TAGS,
@@ -946,6 +973,7 @@ pub fn families() -> Vec<Fam> {
             name: "map-op",
             group: "map",
             raw_dec: false,
+            strict: false,
             enc_raw: true,
             enc_typed: true,
             map_tags: OP_TAGS,
@@ -965,6 +993,7 @@ pub fn families() -> Vec<Fam> {
             name: "store-init-value-raw",
             group: "store",
             raw_dec: true,
+            strict: false,
             enc_raw: true,
             enc_typed: false,
             map_tags: MSG_TAGS,
@@ -977,6 +1006,7 @@ pub fn families() -> Vec<Fam> {
             name: "store-init-value",
             group: "store",
             raw_dec: false,
+            strict: false,
             enc_raw: true,
             enc_typed: false,
             map_tags: MSG_TAGS,
@@ -989,6 +1019,7 @@ pub fn families() -> Vec<Fam> {
             name: "store-init-map-raw",
             group: "store",
             raw_dec: true,
+            strict: false,
             enc_raw: true,
             enc_typed: false,
             map_tags: MSG_TAGS,
@@ -1001,6 +1032,7 @@ pub fn families() -> Vec<Fam> {
             name: "store-init-map",
             group: "store",
             raw_dec: false,
+            strict: false,
             enc_raw: true,
             enc_typed: false,
             map_tags: MSG_TAGS,
@@ -1013,6 +1045,7 @@ pub fn families() -> Vec<Fam> {
             name: "store-initialized",
             group: "store",
             raw_dec: true,
+            strict: false,
             enc_raw: true,
             enc_typed: false,
             map_tags: OP_TAGS,
@@ -1025,6 +1058,7 @@ pub fn families() -> Vec<Fam> {
             name: "store-resp-value-raw",
             group: "store",
             raw_dec: true,
+            strict: false,
             enc_raw: false,
             enc_typed: true,
             map_tags: OP_TAGS,
@@ -1041,6 +1075,7 @@ pub fn families() -> Vec<Fam> {
             name: "store-resp-map-raw",
             group: "store",
             raw_dec: true,
+            strict: false,
             enc_raw: false,
             enc_typed: true,
             map_tags: OP_TAGS,
@@ -1057,6 +1092,7 @@ pub fn families() -> Vec<Fam> {
             name: "dl-notif-value",
             group: "downlink",
             raw_dec: false,
+            strict: false,
             enc_raw: true,
             enc_typed: false,
             map_tags: MSG_TAGS,
@@ -1069,6 +1105,7 @@ pub fn families() -> Vec<Fam> {
             name: "dl-notif-map",
             group: "downlink",
             raw_dec: false,
+            strict: false,
             enc_raw: true,
             enc_typed: true,
             map_tags: MSG_TAGS,
@@ -1081,6 +1118,7 @@ pub fn families() -> Vec<Fam> {
             name: "dl-op",
             group: "downlink",
             raw_dec: true,
+            strict: false,
             enc_raw: false,
             enc_typed: true,
             map_tags: OP_TAGS,
@@ -1095,6 +1133,7 @@ pub fn families() -> Vec<Fam> {
             name: "command-raw",
             group: "command",
             raw_dec: true,
+            strict: false,
             enc_raw: true,
             enc_typed: true,
             map_tags: OP_TAGS,
@@ -1113,6 +1152,7 @@ pub fn families() -> Vec<Fam> {
             name: "command",
             group: "command",
             raw_dec: false,
+            strict: false,
             enc_raw: true,
             enc_typed: true,
             map_tags: OP_TAGS,
@@ -1132,6 +1172,7 @@ pub fn families() -> Vec<Fam> {
             name: "routed-req-raw",
             group: "messages",
             raw_dec: true,
+            strict: false,
             enc_raw: true,
             enc_typed: false,
             map_tags: ROUTED_REQ_TAGS,
@@ -1144,6 +1185,7 @@ pub fn families() -> Vec<Fam> {
             name: "routed-req",
             group: "messages",
             raw_dec: false,
+            strict: false,
             enc_raw: true,
             enc_typed: false,
             map_tags: ROUTED_REQ_TAGS,
@@ -1164,6 +1206,7 @@ pub fn families() -> Vec<Fam> {
             name: "routed-resp-raw",
             group: "messages",
             raw_dec: true,
+            strict: false,
             enc_raw: true,
             enc_typed: true,
             map_tags: ROUTED_RESP_TAGS,
@@ -1188,6 +1231,7 @@ pub fn bare_recognizer_family() -> Fam {
         name: "recognizer",
         group: "none",
         raw_dec: false,
+        strict: false,
         enc_raw: true,
         enc_typed: false,
         map_tags: OP_TAGS,
@@ -1196,4 +1240,75 @@ pub fn bare_recognizer_family() -> Fam {
         dec: || adapt(swimos_recon::parser::RecognizerDecoder::new(Value::make_recognizer()), from_bare::<Value>),
         reenc: None,
     }
+}
+
+// ---------------------------------------------------------------------------------------------
+// Strict families: the typed decoders instantiated with `i32`, fed well-framed bodies most of
+// which are not an `i32` (sub-check `illtyped:<family>`).
+
+type IRec = <i32 as RecognizerReadable>::Rec;
+
+fn strict_of(base: &str, name: &'static str, fams: &[Fam], dec: fn() -> Box<dyn Dec>) -> Fam {
+    let b = fams.iter().find(|f| f.name == base).expect("harness: base family");
+    Fam {
+        name,
+        group: b.group,
+        raw_dec: false,
+        strict: true,
+        enc_raw: b.enc_raw,
+        enc_typed: b.enc_typed,
+        map_tags: b.map_tags,
+        msgs: b.msgs,
+        enc: b.enc,
+        dec,
+        reenc: None,
+    }
+}
+
+pub fn strict_families() -> Vec<Fam> {
+    let f = families();
+    vec![
+        strict_of("len-recon", "len-recon-i32", &f, || {
+            adapt(WithLenRecognizerDecoder::<IRec>::new(i32::make_recognizer()), from_bare::<i32>)
+        }),
+        strict_of("lane-req-value", "lane-req-value-i32", &f, || {
+            adapt(ValueLaneRequestDecoder::<i32>::default(), from_lane_req::<i32>)
+        }),
+        strict_of("lane-req-map", "lane-req-map-i32", &f, || {
+            adapt(MapLaneRequestDecoder::<i32, i32>::default(), from_lane_req::<MapMessage<i32, i32>>)
+        }),
+        strict_of("lane-resp-value", "lane-resp-value-i32", &f, || {
+            adapt(ValueLaneResponseDecoder::<i32>::default(), from_lane_resp::<i32>)
+        }),
+        strict_of("lane-resp-map", "lane-resp-map-i32", &f, || {
+            adapt(MapLaneResponseDecoder::<i32, i32>::default(), from_lane_resp::<MapOperation<i32, i32>>)
+        }),
+        strict_of("map-msg", "map-msg-i32", &f, || {
+            adapt(MapMessageDecoder::<i32, i32>::default(), from_bare::<MapMessage<i32, i32>>)
+        }),
+        strict_of("map-op", "map-op-i32", &f, || {
+            adapt(MapOperationDecoder::<i32, i32>::default(), from_bare::<MapOperation<i32, i32>>)
+        }),
+        strict_of("store-init-value", "store-init-value-i32", &f, || {
+            adapt(ValueStoreInitDecoder::<i32>::default(), from_store_init::<i32>)
+        }),
+        strict_of("store-init-map", "store-init-map-i32", &f, || {
+            adapt(MapStoreInitDecoder::<i32, i32>::default(), from_store_init::<MapMessage<i32, i32>>)
+        }),
+        strict_of("dl-notif-value", "dl-notif-value-i32", &f, || {
+            adapt(ValueNotificationDecoder::<i32>::default(), from_notif::<i32>)
+        }),
+        strict_of("dl-notif-map", "dl-notif-map-i32", &f, || {
+            adapt(MapNotificationDecoder::<i32, i32>::default(), from_notif::<MapMessage<i32, i32>>)
+        }),
+        strict_of("command", "command-i32", &f, || {
+            adapt(CommandMessageDecoder::<String, i32>::default(), from_cmd::<String, i32>)
+        }),
+        strict_of("routed-req", "routed-req-i32", &f, || {
+            adapt(
+                RequestMessageDecoder::<i32, IRec>::new(i32::make_recognizer()),
+                from_routed_req::<swimos_model::Text, i32>,
+            )
+        }),
+    ]
 }
